@@ -93,6 +93,7 @@ Definition labels_safe (ls : list label) : bool :=
    non-printable below U+10000 (rendered \uXXXX, which is JSON). Everything else - \a \v, other
    bytes < 0x20, 0x7f, ill-formed UTF-8, non-printable runes >= U+10000 - is rendered with an
    escape JSON does not have. *)
+Definition isprint_or_bmp (isprint : Z -> bool) (rn : Z) : bool := isprint rn || (rn <? 65536).
 Fixpoint json_ok_str (isprint : Z -> bool) (skip : nat) (s : string) : bool :=
   match s with
   | EmptyString => true
@@ -103,7 +104,7 @@ Fixpoint json_ok_str (isprint : Z -> bool) (skip : nat) (s : string) : bool :=
       let b := byte c in
       if b <? 128 then json_safe_byte b && json_ok_str isprint 0 r
       else match decode_rune s with
-           | Some (rn, w) => (isprint rn || (rn <? 65536)) && json_ok_str isprint (Nat.pred w) r
+           | Some (rn, w) => isprint_or_bmp isprint rn && json_ok_str isprint (Nat.pred w) r
            | None => false
            end
     end
